@@ -328,7 +328,10 @@ pub fn run(args: &Args) -> ! {
                 // race between the command and the closing pipe — executed,
                 // not judged, DESIGN.md §8)
                 let cut_off_with_stderr = any_early && c.err != "none";
-                if got.status != want.status && !cut_off_with_stderr {
+                // (the NUL-bearing shape: whether anything is reported before
+                // binary detection fires — and with it the status — depends on
+                // how the bytes arrive, see above)
+                if got.status != want.status && !cut_off_with_stderr && c.out != "bin" {
                     why.push(format!("exit status {} (searching the same bytes directly gives {})", got.status, want.status));
                 }
             } else if any_early && c.err == "none" && c.when == "after" && (c.out == "big" || (c.out == "bin" && !matches!(c.rgmode, "count" | "json"))) && got.status == 2 {
